@@ -87,6 +87,10 @@ func init() {
 		fr.e.sched.preemptBudget = int(int64(fr.e.concretize(args[0].(*Term), "preemption budget")))
 		return nil
 	})
+	reg(rt+"PreemptedRunLast", func(fr *frame, args []Value) Value {
+		fr.e.sched.demote = fr.e.branch(args[0].(*Term))
+		return nil
+	})
 	reg(rt+"Debug", func(fr *frame, args []Value) Value {
 		var parts []string
 		for _, a := range variadic(args[0]) {
